@@ -5,7 +5,7 @@
 //! This file: scenario format, generator, shrinker. Execution and oracles: e2_exec.rs.
 
 use iced_x86::code_asm::*;
-use iced_x86::{BlockEncoderOptions, Decoder, DecoderOptions, FlowControl, Instruction, InstructionInfoFactory, Mnemonic, Register};
+use iced_x86::{BlockEncoderOptions, Decoder, DecoderOptions, FlowControl, Instruction, InstructionInfoFactory, Register};
 use serde::{Deserialize, Serialize};
 use serde_json::Value;
 
@@ -70,6 +70,10 @@ pub struct Sc {
     pub err_budget: u32,
     pub builtin_exit: bool,
     pub ending: String,
+    /// non-empty: the machine is built by from_binary from an ELF image of the same program whose
+    /// symbol table carries these (offset into the code, name) pairs - several names per address on purpose
+    #[serde(default)]
+    pub symbols: Vec<(u64, String)>,
 }
 
 pub struct E2Engine;
@@ -718,6 +722,10 @@ pub fn generate(prop: &str, thorough: bool, seed: u64, idx: u64) -> Sc {
                 0 | 1 => actions.push(Action { at, kind: "register".into(), hook: Some(gen_hook(&mut sr, flavour, &present, &traps, stopper)), area: 0, prot: 0 }),
                 2 => actions.push(Action { at, kind: "handle_syscalls".into(), hook: None, area: 0, prot: 0 }),
                 3 => actions.push(Action { at, kind: "render".into(), hook: None, area: 0, prot: 0 }),
+                4 if has_stack => {
+                    // the stack turns read-only (or inaccessible) mid-run: later PUSH / CALL fail at their store
+                    actions.push(Action { at, kind: "prot".into(), hook: None, area: 1, prot: *sr.pick(&[1u32, 1, 0, 3]) })
+                }
                 _ => {
                     if data_len > 0 {
                         actions.push(Action { at, kind: "prot".into(), hook: None, area: DATA_BASE, prot: *sr.pick(&[0u32, 1, 2, 3, 1, 3]) })
@@ -744,6 +752,31 @@ pub fn generate(prop: &str, thorough: bool, seed: u64, idx: u64) -> Sc {
     cuts.sort();
     cuts.dedup();
 
+    // C20: a third of the runs load the program as an ELF image with aliased symbols at branch targets
+    let mut symbols: Vec<(u64, String)> = Vec::new();
+    if flavour == "c20" && sr.chance(1, 3) && code_start % 0x1000 == 0 {
+        let mut targets: Vec<u64> = vec![entry - code_start];
+        let mut dec = Decoder::with_ip(64, &code, code_start, DecoderOptions::NONE);
+        let mut ins = Instruction::default();
+        while dec.can_decode() {
+            dec.decode_out(&mut ins);
+            if matches!(ins.flow_control(), FlowControl::ConditionalBranch | FlowControl::UnconditionalBranch | FlowControl::Call) {
+                let t = ins.near_branch_target();
+                if t >= code_start && t < code_start + code.len() as u64 {
+                    targets.push(t - code_start);
+                }
+            }
+            targets.push(ins.next_ip() - code_start);
+        }
+        let n = 1 + sr.below(6);
+        for k in 0..n {
+            let off = *sr.pick(&targets);
+            let names = 1 + sr.below(3);
+            for j in 0..names {
+                symbols.push((off, format!("s{k}_{j}_{}", sr.below(100))));
+            }
+        }
+    }
     let mut data = Vec::new();
     if data_len > 0 {
         data.push(DataArea { start: DATA_BASE, len: data_len, prot: 3 });
@@ -771,6 +804,7 @@ pub fn generate(prop: &str, thorough: bool, seed: u64, idx: u64) -> Sc {
         err_budget: 1 + sr.below(4) as u32,
         builtin_exit,
         ending: ending.to_string(),
+        symbols,
     }
 }
 
@@ -839,6 +873,13 @@ pub fn shrink(sc: &Sc) -> Vec<Sc> {
         let mut s = sc.clone();
         s.builtin_exit = false;
         out.push(s);
+    }
+    for i in 0..sc.symbols.len() {
+        let mut s = sc.clone();
+        s.symbols.remove(i);
+        if !s.symbols.is_empty() {
+            out.push(s);
+        }
     }
     // drop trailing NOPs (moves the end of the code), skip leading NOPs (moves the entry point)
     {
@@ -1007,4 +1048,30 @@ impl Engine for E2Engine {
     fn level(&self, _prop: &str) -> &'static str {
         "exploration"
     }
+}
+
+
+/// The scenario's program as a static ELF64 image: one R+X segment holding the code, a symbol
+/// table with the scenario's (aliased) symbols.
+pub fn image_for(sc: &Sc) -> Vec<u8> {
+    use crate::e4::elf::{build, ImgSpec, SegSpec, SymSpec};
+    let code = from_hex(&sc.code);
+    let mut data = code.clone();
+    // the loader maps the segment to the end of its page: fill the rest with a byte that is invalid in
+    // 64-bit mode, so that running off the program fails at once without reading any register
+    while (sc.code_start + data.len() as u64) % 0x1000 != 0 {
+        data.push(0x06);
+    }
+    let spec = ImgSpec {
+        segs: vec![SegSpec { vaddr: sc.code_start, filesz: data.len() as u64, memsz: data.len() as u64, flags: 5, seed: 1, data: Some(to_hex(&data)) }],
+        ph_order: vec![0],
+        file_order: vec![0],
+        extras: vec![],
+        entry_seg: 0,
+        entry_off: sc.entry - sc.code_start,
+        syms: sc.symbols.iter().map(|(off, name)| SymSpec { name: Some(name.clone()), seg: 0, off: *off, defined: true }).collect(),
+        sections: true,
+        entry_code: String::new(),
+    };
+    build(&spec).bytes
 }
